@@ -1,6 +1,7 @@
 package main
 
 import (
+	pongo2 "github.com/flosch/pongo2/v6"
 	"fmt"
 	"strings"
 )
@@ -21,6 +22,7 @@ type c10gen struct {
 	k     int
 	used  map[string]bool // names defined in the template being generated
 	next  int
+	cur   string // the block whose body is being generated
 }
 
 func (g *c10gen) freshName() string {
@@ -49,7 +51,39 @@ func (g *c10gen) body(d int, allowSuper bool) []bnode {
 			// a block first defined here, inside another block's body: its own Super is empty at this
 			// level, whatever the enclosing block's Super is
 			name := g.freshName()
+			savedCur := g.cur
+			g.cur = name
 			b := g.body(d-1, g.r.Chance(1, 2))
+			g.cur = savedCur
+			g.define(name, b)
+			out = append(out, bnode{k: "block", name: name})
+		case x == 6 && d > 0 && g.level > 0:
+			// a block an ancestor defines, re-declared here inside another block's override
+			// (only blocks an ancestor's definition of the enclosing block already contains: anything
+			// else could make two blocks contain each other, which is a runaway, not a resolution question)
+			var cands []string
+			seenC := map[string]bool{}
+			if dd, ok := g.defs[g.cur]; ok {
+				for j := 0; j < g.level; j++ {
+					for _, bn := range dd[j] {
+						if bn.k == "block" && !g.used[bn.name] && !seenC[bn.name] {
+							seenC[bn.name] = true
+							cands = append(cands, bn.name)
+						}
+					}
+				}
+			}
+			if len(cands) == 0 {
+				out = append(out, bnode{k: "text", s: "."})
+				break
+			}
+			sortStrings(cands)
+			name := g.r.Pick(cands)
+			g.used[name] = true // reserved before the body is generated: a name is declared once per template
+			savedCur := g.cur
+			g.cur = name
+			b := g.body(d-1, true)
+			g.cur = savedCur
 			g.define(name, b)
 			out = append(out, bnode{k: "block", name: name})
 		case x == 5 && d > 0:
@@ -61,7 +95,14 @@ func (g *c10gen) body(d int, allowSuper bool) []bnode {
 	return out
 }
 
+var bsrcDepth int
+
 func bsrc(ns []bnode, defs map[string][][]bnode, level int) string {
+	bsrcDepth++
+	defer func() { bsrcDepth-- }()
+	if bsrcDepth > 200 {
+		panic(fmt.Sprintf("bsrc cycle at level %d: %+v", level, ns))
+	}
 	var sb strings.Builder
 	for _, n := range ns {
 		switch n.k {
@@ -119,6 +160,11 @@ func suiteC10(cfg Config, res *Result) {
 	rng := NewRNG(cfg.Seed)
 	var cases []ProgCase
 	wants := map[string]string{}
+	type chainRec struct {
+		files map[string]string
+		wants []string
+	}
+	var chains []chainRec
 	for i := 0; i < n; i++ {
 		k := 1 + rng.Intn(5)
 		g := &c10gen{r: rng.Fork(), defs: map[string][][]bnode{}, k: k}
@@ -131,6 +177,7 @@ func suiteC10(cfg Config, res *Result) {
 		for j := 0; j < nb; j++ {
 			doc = append(doc, bnode{k: "text", s: rng.Pick([]string{"[", "|", "-"})})
 			name := g.freshName()
+			g.cur = name
 			b := g.body(2, rng.Chance(1, 4))
 			g.define(name, b)
 			blk := bnode{k: "block", name: name}
@@ -162,6 +209,8 @@ func suiteC10(cfg Config, res *Result) {
 				if g.used[nm] || !rng.Chance(2, 5) {
 					continue
 				}
+				g.used[nm] = true // before its body is generated: a block is not re-declared inside itself
+				g.cur = nm
 				b := g.body(1, true)
 				g.define(nm, b)
 				sb.WriteString(rng.Pick([]string{"", "outside", "{{ 1 }}"}))
@@ -175,9 +224,11 @@ func suiteC10(cfg Config, res *Result) {
 				hasSuper = true
 			}
 		}
+		cr := chainRec{files: files}
 		for lvl := 0; lvl <= k; lvl++ {
 			var sb strings.Builder
 			refRender(doc, g.defs, lvl, "", 0, &sb)
+			cr.wants = append(cr.wants, sb.String())
 			ct := CtxTerm{Names: []string{"two"}, Vals: []VT{vList("int", vInt(1), vInt(2))}}
 			lbl := "plain"
 			if k >= 2 && hasSuper {
@@ -186,6 +237,43 @@ func suiteC10(cfg Config, res *Result) {
 			pc := ProgCase{Src: fmt.Sprintf("t%d.tpl", lvl), FromFile: true, Loaders: []map[string]string{files}, Ctx: &ct, Label: lbl}
 			cases = append(cases, pc)
 			wants[pc.Req()] = sb.String()
+		}
+		if i%4 == 0 {
+			chains = append(chains, cr)
+		}
+	}
+	// one set, every template of a chain fetched through the cache in some order and rendered:
+	// rendering a template is not affected by which of its relatives were compiled before
+	for _, cr := range chains {
+		set := pongo2.NewSet("c10c", &memLoader{files: cr.files})
+		order := make([]int, len(cr.wants))
+		for j := range order {
+			order[j] = j
+		}
+		for a := len(order) - 1; a > 0; a-- {
+			b := rng.Intn(a + 1)
+			order[a], order[b] = order[b], order[a]
+		}
+		res.Cases++
+		for _, lvl := range append(order, order...) {
+			var got execRes
+			func() {
+				defer func() {
+					if p := recover(); p != nil {
+						got = execRes{pan: fmt.Sprint(p)}
+					}
+				}()
+				tpl, err := set.FromCache(fmt.Sprintf("t%d.tpl", lvl))
+				if err != nil {
+					got = execRes{err: err.Error()}
+					return
+				}
+				got = execOnce(tpl, pongo2.Context{"two": []int{1, 2}})
+			}()
+			if got.err != "" || got.pan != "" || got.out != cr.wants[lvl] {
+				res.add(Finding{Kind: "oracle", Proj: "reference", Sig: "c10-depends-on-compile-order", Case: fmt.Sprintf("files=%q FromCache order %v, rendering t%d.tpl", cr.files, order, lvl), Impl: got.String(), Model: "reference resolution: ok " + hxb(cr.wants[lvl])})
+				break
+			}
 		}
 	}
 	runProgCases(cfg, res, cases, "c10", func(c ProgCase, o ImplOutcome) bool { return c.Label == "super" },
